@@ -667,6 +667,9 @@ func (p Parameters) Equal(other *Parameters) (res bool) {
 	res = res && cmp.Equal(p.pi, other.pi)
 	res = res && (p.ringType == other.ringType)
 	res = res && (p.defaultScale.Equal(other.defaultScale))
+	// Scale.Equal compares the values only: the modulus of an integer scale (nil for a floating point scale) is part of the parameters
+	res = res && (p.defaultScale.Mod == nil) == (other.defaultScale.Mod == nil)
+	res = res && (p.defaultScale.Mod == nil || p.defaultScale.Mod.Cmp(other.defaultScale.Mod) == 0)
 	res = res && (p.nttFlag == other.nttFlag)
 	return
 }
